@@ -22,7 +22,8 @@ RENDERABLE = ["BadRequest", "Unauthorized", "BadOption", "Forbidden", "NotFound"
               "NotImplemented", "BadGateway", "ServiceUnavailable", "GatewayTimeout", "ProxyingNotSupported",
               "HopLimitReached"]
 BARE = ["raise:py:KeyError", "raise:py:AssertionError", "raise:py:ValueError", "raise:py:RuntimeError",
-        "raise:py:Exception", "ret:none", "ret:str", "ret:bytes", "ret:int", "badrender"]
+        "raise:py:Exception", "ret:none", "ret:str", "ret:bytes", "ret:int", "badrender",
+            "unencodable:payload", "unencodable:option"]
 OUTCOMES = ["ok", "nocode"] + ["raise:" + n for n in RENDERABLE] + BARE
 NAMES = {1: "GET", 2: "POST", 3: "PUT", 4: "DELETE", 5: "FETCH", 6: "PATCH", 7: "IPATCH"}
 
